@@ -9,9 +9,10 @@ PROP = {
                    "to paths / to PolyTree) with all four join types, both signs of delta, three miter limits and three arc "
                    "tolerances, and judges each result at several hundred sample points outside the tolerance band against a "
                    "signed-distance oracle (exact winding number + nearest-edge distance) that shares no code with the offsetter; "
-                   "plus exact orientation-versus-nesting of every result path, emptiness after a shrink beyond a rigorous inradius "
-                   "bound, and region identity for |delta|<0.5. The property quantifies over all inputs and all points of the "
-                   "plane, so this is sampling evidence, not proof."),
+                   "plus: every result vertex must lie inside the band (refuted by a concrete misclassified point on the 1/256 grid "
+                   "next to it, judged exactly on the inputs scaled by 256), exact orientation-versus-nesting of every non-sliver "
+                   "result path, emptiness after a shrink beyond a rigorous inradius bound, and region identity for |delta|<0.5. "
+                   "The property quantifies over all inputs and all points of the plane, so this is sampling evidence, not proof."),
     "level_note": ("trusted base: __int128 orientation/winding oracle and point-segment distances (harness/common/geom.h, "
                    "harness/c06_offset_common.h), the exact premise verifier swh_verify, g++; errors inside the tolerance band "
                    "t = arc + 2 + 0.001|delta| (+0.25 margin) are not observable; only star-shaped outers with star-shaped holes "
@@ -21,8 +22,9 @@ PROP = {
              "20% translated by up to 2^40; exact filters: simple, mutually non-touching, holes strictly inside with clearance 2, "
              "turning angles <= 169.7 degrees), cycled over 4 join types x delta sign x orientation convention x "
              "API/ReverseSolution x 7 sizes, |delta| from 0.4 to 0.6*size (classes <0.5, 0.5-3, around the inradius, log-uniform, "
-             "uniform), miter limits {1,2,5}, arc tolerances {0, 0.25, 1% of size}; samples: uniform, delta+-(t+1) and delta+-3t "
-             "(and k*delta+-...) along edge normals and vertex bisectors, sweep-rectangle corners, both sides of result edges; "
+             "uniform), miter limits {1,2,5}, arc tolerances {0, max(0.25, |delta|/32768), 1% of size}; samples: uniform, delta+-(t+1) and delta+-3t "
+             "(and k*delta+-...) along edge normals and vertex bisectors, directions inside the normal fan of every vertex, "
+             "sweep-rectangle corners, both sides of result edges; every result vertex is a boundary probe; "
              "a case is non-trivial iff the result is non-empty and at least 50 samples lay outside the band and were judged; "
              "distinct by hash of input+configuration"),
     "assumptions": ["exact __int128 orientation/winding oracle and the long-double point-segment distance are correct",
@@ -30,9 +32,9 @@ PROP = {
                     "the 10-degree premise is applied with a margin: turning angles in (169.74, 170] degrees are not explored"],
     "floor": _q(8000, 250000),
     "must_count": _q(["samples_judged_round", "samples_judged_miter", "samples_judged_square", "samples_judged_bevel",
-                      "samples_judged_small_delta", "orientation_paths_checked", "overshrink_cases"],
+                      "samples_judged_small_delta", "orientation_paths_checked", "overshrink_cases", "result_vertices_checked"],
                      ["samples_judged_round", "samples_judged_miter", "samples_judged_square", "samples_judged_bevel",
-                      "samples_judged_small_delta", "orientation_paths_checked", "overshrink_cases"]),
+                      "samples_judged_small_delta", "orientation_paths_checked", "overshrink_cases", "result_vertices_checked"]),
     "jobs": [
         {"mon": "mon_c06", "cfg": "plain", "cases": _q(20000, 600000)},
         {"mon": "mon_c06", "cfg": "hp", "cases": _q(4000, 150000), "seed_off": 1000003},
